@@ -166,8 +166,15 @@ def classify_call(world, body, bb, term, env):
         kind = "Deliver" if (ty.endswith("RxPacket") or ty.endswith("codec::publish::PublishRx")) else ("Enqueue" if ty.endswith("ContextMessage") else "Send")
         return (kind, {"ty": ty, "sender": env_atoms(world, body, term["ops"][0], env),
                        "payload": env_atoms(world, body, term["ops"][1], env)})
-    if "VecDeque" in nm or "VecDeque" in res:
-        meth = (res if "VecDeque" in res else nm).split("::")[-1]
+    is_vec = False
+    if re.search(r"(^|[<: ])std::vec::Vec(<|::)", nm) or re.search(r"(^|[<: ])std::vec::Vec(<|::)", res):
+        # a Session collection kept as a plain Vec: the same vocabulary (push / remove / retain / clear / reads)
+        is_vec = bool(term["ops"]) and bool(session_field(env_atoms(world, body, term["ops"][0], env)))
+    if "VecDeque" in nm or "VecDeque" in res or is_vec:
+        meth = (res if ("VecDeque" in res or (is_vec and "Vec" in res)) else nm).split("::")[-1]
+        if is_vec:
+            meth = {"push": "push_back", "pop": "pop_back", "swap_remove": "swap_remove_back", "deref": "iter", "deref_mut": "iter_mut", "as_slice": "iter",
+                    "as_mut_slice": "iter_mut", "first": "front", "last": "back"}.get(meth, meth)
         recv = env_atoms(world, body, term["ops"][0], env) if term["ops"] else set()
         fs = session_field(recv)
         det = {"fields": fs, "method": meth, "recv": recv,
